@@ -2,6 +2,7 @@ package main
 
 import (
 	"strconv"
+	"strings"
 
 	"verif/harness/hx"
 )
@@ -27,7 +28,7 @@ func smallAlphabet() []string {
 		}
 		out = append(out, "del "+hx.Hex(k))
 	}
-	return append(out, "commit", "reopen", "dbcommit")
+	return append(out, "commit", "reopen", "dbcommit", "snap", "fork")
 }
 
 // gen produces one structured, boundary-biased history over a key pool.
@@ -38,6 +39,7 @@ type gen struct {
 	valDist  map[string]int
 	thorough bool
 	base     []byte
+	nsnaps   int
 }
 
 var families = []string{"nibble-alphabet", "prefix-chain", "random20", "random32", "shared-long-prefix", "mixed", "dense-1-2-byte"}
@@ -165,10 +167,32 @@ func (g *gen) op() string {
 		return "reopen"
 	case c < 91:
 		return "dbcommit"
-	case c < 93:
+	case c < 92:
 		return "cachelimit " + strconv.Itoa(r.Pick(0, 0, 1, 2, 3, 65535))
-	case c < 96:
+	case c < 94:
 		return "shape"
+	case c < 95:
+		if g.nsnaps < 6 {
+			g.nsnaps++
+			if r.Bool() {
+				return "fork"
+			}
+			return "snap"
+		}
+		return "badopen " + hx.Hex(r.Bytes(32))
+	case c < 97:
+		if g.nsnaps == 0 {
+			return "badopen " + hx.Hex(r.Bytes(32))
+		}
+		i := strconv.Itoa(r.Intn(g.nsnaps))
+		switch r.Intn(4) {
+		case 0:
+			return "shash " + i
+		case 1:
+			return "sshape " + i
+		default:
+			return "sget " + i + " " + hx.Hex(g.key())
+		}
 	default:
 		if r.Bool() {
 			return "iter -"
@@ -179,4 +203,79 @@ func (g *gen) op() string {
 		}
 		return "iter " + hx.Hex(k)
 	}
+}
+
+// boundaryHistories: deterministic families around the size boundaries random sampling rarely
+// hits exactly: node RLP length 31/32/33 (embedding rule), payload 55/56 (short/long RLP header),
+// 255/256 and 65535/65536 (length-of-length 1/2/3 bytes), key lengths 0/1/31/32/33/64, and a root
+// hash with a leading zero byte (found by seeded rejection sampling).
+func boundaryHistories(r *hx.Rng, thorough bool) [][]string {
+	var out [][]string
+	val := func(n int, b byte) []byte {
+		v := make([]byte, n)
+		for i := range v {
+			v[i] = b + byte(i)
+		}
+		return v
+	}
+	tail := func(ks ...[]byte) []string {
+		t := []string{"hash", "shape", "snap", "fork", "reopen", "shape"}
+		for _, k := range ks {
+			t = append(t, "get "+hx.Hex(k))
+		}
+		t = append(t, "dbcommit", "shape")
+		for _, k := range ks {
+			t = append(t, "get "+hx.Hex(k), "sget 0 "+hx.Hex(k), "del "+hx.Hex(k), "sget 1 "+hx.Hex(k))
+		}
+		return append(t, "iter -", "shash 0", "shash 1", "sshape 1", "hash")
+	}
+	// (a) leaf / branch encodings around 32 bytes
+	for klen := 1; klen <= 4; klen++ {
+		a := make([]byte, klen)
+		b := make([]byte, klen)
+		for i := range a {
+			a[i], b[i] = 0x11, 0x11
+		}
+		b[0] = 0x12
+		for vlen := 18; vlen <= 36; vlen++ {
+			h := []string{"upd " + hx.Hex(a) + " " + hx.Hex(val(vlen, 0x40)), "upd " + hx.Hex(b) + " 01"}
+			out = append(out, append(h, tail(a, b)...))
+			h2 := []string{"upd " + hx.Hex(a) + " " + hx.Hex(val(vlen, 0x40)), "upd " + hx.Hex(b) + " " + hx.Hex(val(vlen, 0x80)),
+				"commit", "del " + hx.Hex(b)}
+			out = append(out, append(h2, tail(a, b)...))
+		}
+	}
+	// (b) RLP header boundaries
+	sizes := []int{54, 55, 56, 57, 58, 253, 254, 255, 256, 257, 258}
+	if thorough {
+		sizes = append(sizes, 65533, 65534, 65535, 65536, 65537)
+	} else {
+		sizes = append(sizes, 65535, 65536)
+	}
+	for _, n := range sizes {
+		k1, k2 := []byte{0xab, 0xcd}, []byte{0xab, 0xce}
+		h := []string{"upd " + hx.Hex(k1) + " " + hx.Hex(val(n, 1)), "upd " + hx.Hex(k2) + " " + hx.Hex(val(n-2, 7))}
+		out = append(out, append(h, tail(k1, k2)...))
+		out = append(out, append([]string{"upd " + hx.Hex(k1) + " " + hx.Hex(val(n, 1))}, tail(k1)...))
+	}
+	// (c) key lengths, prefixes of one another
+	base := val(64, 0x21)
+	var h []string
+	var ks [][]byte
+	for _, n := range []int{0, 1, 31, 32, 33, 64} {
+		h = append(h, "upd "+hx.Hex(base[:n])+" "+hx.Hex(val(n+1, 3)))
+		ks = append(ks, base[:n])
+	}
+	out = append(out, append(h, tail(ks...)...))
+	// (d) a root hash with a leading zero byte (about 1 in 256 single-leaf tries)
+	for i := 0; i < 4000; i++ {
+		k := r.Bytes(4)
+		m := newImpl()
+		m.exec("upd " + hx.Hex(k) + " 2a")
+		if strings.HasPrefix(m.exec("hash"), "00") {
+			out = append(out, append([]string{"upd " + hx.Hex(k) + " 2a", "badopen " + strings.Repeat("00", 32)}, tail(k)...))
+			break
+		}
+	}
+	return out
 }
